@@ -4,6 +4,7 @@ from __future__ import annotations
 
 import copy
 import json
+import os
 import random
 import re
 
@@ -117,6 +118,8 @@ def gen_spec(rng, profile):
         'oracles': list(profile['oracles']),
         'fs': {'write_through': rng.random() < 0.6, 'short_reads': rng.random() < profile.get('short_reads', 0.0)},
     }
+    if profile.get('post'):
+        profile['post'](rng, spec)
     if rng.random() < profile.get('poison', 0.3):
         pal = palette(max(1, target))
         if rng.random() < 0.5:
@@ -173,7 +176,8 @@ def classify_phase(prop, spec, ph, crashed_expected=False):
     if st == 'exception':
         tr = v.get('trace', '')
         benign = (cli.get('heuristic') == 'Constant' or task != 'ranking') and 'FileNotFoundError' in tr and "ranking_checkpoint_tmp.tsv" in tr and 'os.remove' in tr
-        harness = '/verif/sim/' in tr.split('Traceback')[-1].splitlines()[-3] if len(tr.split('Traceback')[-1].splitlines()) >= 3 else False
+        frames = [l for l in tr.split('Traceback')[-1].splitlines() if l.strip().startswith('File "')]
+        harness = bool(frames) and (os.sep + 'sim' + os.sep) in frames[-1] and (os.sep + 'outrank' + os.sep) not in frames[-1]
         if harness:
             return [], other, 'exception inside the harness: ' + tr[-800:]
         # C05/C06/C07 speak about what every mini-batch emits: an exception raised after the streaming phase
@@ -301,7 +305,9 @@ def shrink_candidates(spec, rng=None):
 
 def spec_size(spec):
     wl = spec['workload']
-    return (len(wl['lines']), len(wl['header']), spec['cli'].get('num_threads', 1), len(json.dumps(spec, default=repr)))
+    cli = spec['cli']
+    return (len(wl['lines']), len(wl['header']), cli.get('minibatch_size', 1), cli.get('subsampling', 1), cli.get('num_threads', 1),
+            0 if spec.get('service_mode') == 'instant' else 1, len(json.dumps(spec, default=repr)))
 
 
 def shrink(pool, spec, fails_many, rounds=30, max_cands=160, wall=45.0):
@@ -355,7 +361,7 @@ def record_run(rep, spec, v):
     rep.sim_seconds += v.get('sim_now', 0.0)
     rep.add_counts(rep.probes, v.get('probes'))
     st = v.get('stats', {})
-    rep.add_counts(rep.fault_counts, {k: n for k, n in st.items() if k.startswith(('crash@', 'stall', 'short_read'))})
+    rep.add_counts(rep.fault_counts, {k: n for k, n in st.items() if k.startswith(('crash@', 'stall', 'short_read', 'oversleep', 'clock_jump'))})
     if v.get('reordered_amaps'):
         rep.add_counts(rep.fault_counts, {'reordered_completion': v['reordered_amaps']})
     if spec.get('poison'):
@@ -396,7 +402,7 @@ def run_check(prop, args, profile, rule, signature, nontrivial, crash_mode=False
     rounds = 0
     import time as _time
     t_start = _time.time()
-    while _time.time() - t_start < budget and not stop:
+    while (rounds == 0 or _time.time() - t_start < budget) and not stop:
         rounds += 1
         specs = [gen_spec(rng, profile) for _ in range(batch)]
         for s in specs:
@@ -511,6 +517,20 @@ def handle_violation(pool, rep, prop, spec, vio, phase_index=0, census=None):
                         break
         else:
             small = spec
+        # turn the seed-driven schedule into an explicit decision list (chunk->worker choices, service times,
+        # stalls, short-read sizes): the replay file then no longer depends on the PRNG
+        try:
+            phs = phase_values(r) if same_failure(prop, small, r, cls, key=key) else None
+            if phs is not None:
+                explicit = copy.deepcopy(small)
+                explicit['phases'] = [dict(ph0, replay=ph['proc']['value'].get('decisions', {})) for ph0, ph in zip(small.get('phases') or [{}], phs)
+                                      if ph['proc']['status'] == 'returned']
+                if len(explicit['phases']) == len(small.get('phases') or [{}]):
+                    r2 = pool.run([job_of(explicit)])[0]
+                    if same_failure(prop, explicit, r2, cls, key=key):
+                        small = explicit
+        except (KeyError, Harness):
+            pass
     return rep.violation(cls, key, {'observed': detail, 'spec': spec_summary(small)},
                          {'spec': small, 'phase_index': phase_index, 'census_ranks': (census or {}).get('ranks') if cls == 'restart-differs' else None,
                           'seed': rep.args.seed})
